@@ -234,6 +234,15 @@ func reflectValueIntrinsics2() map[string]intrinsic {
 			return Value{}
 		},
 		"(*sync.Pool).Put": noop,
+		// sort.Slice: an insertion sort through the less function (the result
+		// of a non-stable sort is determined only up to elements that compare
+		// equal; ties keep their order here)
+		"sort.Slice": func(it *Interp, fn *ssa.Function, args []Value) Value {
+			return it.sortSlice(args[0], args[1])
+		},
+		"sort.SliceStable": func(it *Interp, fn *ssa.Function, args []Value) Value {
+			return it.sortSlice(args[0], args[1])
+		},
 		"reflect.MakeChan": func(it *Interp, fn *ssa.Function, args []Value) Value {
 			t := it.tokenArg(args[0]).t
 			if _, ok := t.Underlying().(*types.Chan); !ok {
@@ -560,4 +569,30 @@ func (eng *Engine) typesPackage(path string) *types.Package {
 	}
 	p, _ := typesPkgs.LoadOrStore(path, types.NewPackage(path, name))
 	return p.(*types.Package)
+}
+
+func (it *Interp) sortSlice(x, less Value) Value {
+	ifc, _ := x.Ref.(*Iface)
+	if ifc == nil {
+		it.goPanicValue(mkStrIface(it, "reflect: call of Swapper on zero Value"))
+	}
+	sl, ok := ifc.v.Ref.(Slice)
+	if !ok {
+		if ifc.v.Ref == nil {
+			return Value{}
+		}
+		it.unsupported("sort.Slice of a non-slice")
+	}
+	for i := 1; i < sl.n; i++ {
+		for j := i; j > 0; j-- {
+			r := it.callValue(less, []Value{{Bits: uint64(j)}, {Bits: uint64(j - 1)}}, nil, nil)
+			if !it.truth(r) {
+				break
+			}
+			a, b := it.loadCell(sl.c[j]), it.loadCell(sl.c[j-1])
+			it.store(sl.c[j], b)
+			it.store(sl.c[j-1], a)
+		}
+	}
+	return Value{}
 }
